@@ -310,23 +310,26 @@ func (ms *Modules) FindModuleByNamespace(ns string) (*Module, error) {
 		return m, nil
 	}
 	var found *Module
+	names := map[string]bool{}
 	for _, m := range ms.Modules {
 		if m.Namespace.Name == ns {
-			switch {
-			case m == found:
-			case found != nil && found.Name == m.Name:
-				// The revisions of one module share its
-				// namespace; it denotes the latest of them.
-				if found.FullName() < m.FullName() {
-					found = m
-				}
-			case found != nil:
-				return nil, fmt.Errorf("namespace %s matches two or more modules (%s, %s)",
-					ns, found.Name, m.Name)
-			default:
+			names[m.Name] = true
+			// The revisions of one module share its namespace; it
+			// denotes the latest of them.
+			if found == nil || found.FullName() < m.FullName() {
 				found = m
 			}
 		}
+	}
+	if len(names) > 1 {
+		// Name the same two whatever the order of the walk.
+		sorted := make([]string, 0, len(names))
+		for n := range names {
+			sorted = append(sorted, n)
+		}
+		sort.Strings(sorted)
+		return nil, fmt.Errorf("namespace %s matches two or more modules (%s, %s)",
+			ns, sorted[0], sorted[1])
 	}
 	if found == nil {
 		return nil, fmt.Errorf("%q: no such namespace", ns)
